@@ -153,6 +153,20 @@ pub trait IterMapExt<T> {
             Err(e) => exists|i: int| 0 <= i < self.mv().len() && call_ensures(f, (&#[trigger] self.mv()[i],), Err::<U, E>(e)),
         };
 }
+pub trait IterCountExt<T> {
+    spec fn cv(&self) -> Seq<T>;
+    /// `.iter().filter(f).count()`: number of elements on which the predicate returned true
+    fn iter_count<F: Fn(&T) -> bool>(&self, f: F) -> (r: usize)
+        requires forall|i: int| 0 <= i < self.cv().len() ==> call_requires(f, (&#[trigger] self.cv()[i],)),
+        ensures exists|p: spec_fn(T) -> bool| r == #[trigger] self.cv().filter(p).len() && (forall|x: T| call_ensures(f, (&x,), #[trigger] p(x)))
+            // consequence of r == filter(p).len(): two accepted positions give a count of at least two
+            && (forall|i: int, j: int| 0 <= i < j < self.cv().len() && p(#[trigger] self.cv()[i]) && p(#[trigger] self.cv()[j]) ==> r >= 2);
+}
+impl<T> IterCountExt<T> for Vec<T> {
+    open spec fn cv(&self) -> Seq<T> { self@ }
+    #[verifier::external_body]
+    fn iter_count<F: Fn(&T) -> bool>(&self, f: F) -> (r: usize) { unimplemented!() }
+}
 pub trait IntoIterFilterExt<T>: Sized {
     spec fn fv(&self) -> Seq<T>;
     fn into_iter_filter<F: Fn(&T) -> bool>(self, f: F) -> (r: Vec<T>)
